@@ -159,19 +159,29 @@ Section Leaves.
   Definition vscale (k : A) (v : list A) : list A := map (fun a => a * k) v.
   Definition vadd (a b : list A) : list A := lift2 (n_add O) a b.
   Definition vsub (a b : list A) : list A := lift2 (n_sub O) a b.
-  Definition planar_u (w u0 : list A) : list A :=
+  (* get_act_scale.  With the leaky-relu activation the map has slopes 1 and negative_slope, so the
+     constraint value m(w.u) > -1 is divided by max(1, negative_slope) (fix D7). *)
+  Definition planar_k (ns : option A) : A := match ns with Some s => nmax O (c 1) s | None => c 1 end.
+  Definition planar_u (ns : option A) (w u0 : list A) : list A :=
     let wtu := dot O u0 w in
     let m_wtu := c (-1) + n_log O (c 1 + n_softplus O wtu) in
+    let m_wtu := match ns with Some _ => m_wtu / planar_k ns | None => m_wtu end in
     let nrm := n_sqrt O (dot O w w) in   (* jnp.linalg.norm(w) ** 2 *)
+    vadd u0 (map (fun wi => (m_wtu - wtu) * wi / (nrm * nrm)) w).
+  (* as it was before fix D7: no division *)
+  Definition planar_u_old (w u0 : list A) : list A :=
+    let wtu := dot O u0 w in
+    let m_wtu := c (-1) + n_log O (c 1 + n_softplus O wtu) in
+    let nrm := n_sqrt O (dot O w w) in
     vadd u0 (map (fun wi => (m_wtu - wtu) * wi / (nrm * nrm)) w).
   Definition leaky_relu (s z : A) : A := where_ (geb z (c 0)) z (s * z).
   (* activation: None = tanh, Some s = leaky relu with negative slope s *)
   Definition planar_act (ns : option A) (z : A) : A :=
     match ns with None => n_tanh O z | Some s => leaky_relu s z end.
   Definition planar_fwd (ns : option A) (w u0 : list A) (b : A) (x : list A) : list A :=
-    let u := planar_u w u0 in vadd x (vscale (planar_act ns (dot O w x + b)) u).
+    let u := planar_u ns w u0 in vadd x (vscale (planar_act ns (dot O w x + b)) u).
   Definition planar_ld_fwd (ns : option A) (w u0 : list A) (b : A) (x : list A) : A :=
-    let u := planar_u w u0 in
+    let u := planar_u ns w u0 in
     let act := planar_act ns (dot O x w + b) in
     let psi := match ns with
                | Some s => vscale (where_ (n_ltb O act (c 0)) s (c 1)) w
@@ -180,12 +190,12 @@ Section Leaves.
   Definition planar_inv (s : A) (w u0 : list A) (b : A) (y : list A) : list A :=
     let numer := dot O w y + b in
     let slope := where_ (n_ltb O numer (c 0)) s (c 1) in
-    let us := vscale slope (planar_u w u0) in
+    let us := vscale slope (planar_u (Some s) w u0) in
     let denom := c 1 + dot O w us in
     vsub y (vscale (numer / denom) us).
   Definition planar_ld_inv (s : A) (w u0 : list A) (b : A) (y : list A) : A :=
     let numer := dot O w y + b in
     let slope := where_ (n_ltb O numer (c 0)) s (c 1) in
-    let us := vscale slope (planar_u w u0) in
+    let us := vscale slope (planar_u (Some s) w u0) in
     - (n_log O (n_abs O (c 1 + dot O us w))).
 End Leaves.
